@@ -69,7 +69,7 @@ Proof.
   match goal with |- Clean S7 (mon_run (rev (trace (res_state ?r)))) => change (Clean S7 (mst (res_state r))) end.
   assert (FIN : forall r, H7s (res_state r) -> Clean S7 (mst (res_state r))) by (intros r [C _]; exact C).
   apply FIN.
-  destruct (core0_Y sc) as (Y0 & A0 & E0).
+  destruct (core0_Y sc C0) as (Y0 & A0 & E0).
   pose proof (run_acts_Y sc false (sc_setup sc) (core0 sc) Y0 (wf_setup sc WF)) as P0.
   pose proof (run_acts_ok DA (sc_setup sc) (core0 sc) (proj1 C0) (wf_setup sc WF)) as Q0.
   pose proof (run_acts_ext (sc_setup sc) (core0 sc)) as T0. unfold RExt in T0.
@@ -102,3 +102,14 @@ Proof.
 Qed.
 
 End Top7.
+
+(* ---------- exported statement ---------- *)
+From Ivv Require Core.CoreInv Core.CorePhase2Fd.
+
+Theorem core_code_707 : forall sc, wf_scenario sc -> ~ In 707 (mon_fails (run_scenario sc)).
+Proof.
+  intros sc WF H.
+  apply (core_clean7 sc WF CoreInv.do_action_ok (CorePhase2Fd.core0_LoopInv sc WF) 707 H). cbn. tauto.
+Qed.
+
+Print Assumptions core_code_707.
